@@ -210,6 +210,10 @@ pub fn run() {
 		let label = a.describe();
 		jobs.push((record(&a).doc.assemble(), label, "canonical-history"));
 	});
+	for a in crate::gen::universe(cx.quick()) {
+		let label = a.describe();
+		jobs.push((record(&a).doc.assemble(), label, "universe"));
+	}
 	for v in spec::v_rep() {
 		if spec::gte(v, (3, 3)) {
 			for live in [512u32, 1024, 1536, 700, 66000] {
